@@ -255,7 +255,7 @@ LATTICES = {
                                     RgSplits=1, PageSplits=2, Encodings="EncPlain", DefRunStyles="RunsAll",
                                     IndexRunStyles="RunsRle", IndexWidthStyles="WidthMin", Codecs="CodecNone",
                                     CompressedFlags="FlagAbsent", Creators="CreatorsBoth"),
-    "D-page-and-row-group-splits-with-fallback": dict(Kinds="KindInt", RowCounts="Rows6", NullPats="PatsFew",
+    "D-page-and-row-group-splits-with-fallback": dict(Kinds="KindInt", RowCounts="Rows6", NullPats="PatsAlt",
                                                       Optionals="BoolBoth", RgSplits=2, PageSplits=3, Encodings="EncDict",
                                                       DefRunStyles="RunsRle", IndexRunStyles="RunsRle",
                                                       IndexWidthStyles="WidthMin", Codecs="CodecNone",
